@@ -13,7 +13,6 @@ LEVEL_TEXT = ("Static analysis of the type-checked MIR of /repo: for every frame
               "varint <= 8, cid <= 21. This decides 'writer and size tables agree', a necessary condition of 'the announced "
               "size equals the bytes written'; it does not decide value-level round-trip equality.")
 NOT_DECIDED = ["decode(encode(x)) == x for all values (round-trip equality)", "varint boundary arithmetic of put_varint/be_varint",
-               "FrameType <-> VarInt code-point tables being inverse (computed code points; not extracted)",
                "packet header and transport-parameter encoders (only frames are covered by the size-term rule)"]
 
 FIXED = {"put_u8": 1, "put_u16": 2, "put_u32": 4, "put_u64": 8, "put_u128": 16, "put_i8": 1}
@@ -274,6 +273,133 @@ def run(ctx):
                "encoder writes %s; parser reads %s — swapped writes of two same-typed fields keep every size and type check "
                "happy but decode into the wrong fields" % (common, dec_order))
     ctx.floor("R1", "frames with a recoverable field order on both sides", n1, 8)
+    # ---------------------------------------------------------------- R3: frame-type code points
+    ctx.rule("R3", "frame-type code points: the table FrameType -> VarInt (encoder) and the table VarInt -> FrameType (decoder) are "
+                   "inverse on every constant entry, and the computed families (STREAM 0x08..0x0f, DATAGRAM 0x30/0x31, address "
+                   "frames) start at the base the decoder's range starts at")
+    enc = ctx.anchor("R3", "qbase::frame::<impl core::convert::From<qbase::frame::FrameType> for qbase::varint::VarInt>::from")
+    dec = ctx.anchor("R3", "<qbase::frame::FrameType as core::convert::TryFrom<qbase::varint::VarInt>>::try_from")
+    if enc and dec:
+        E = {}
+
+        def adt_at(body, place):
+            ty = body.local_ty(place[0]).lstrip("&").strip().split("<")[0]
+            variant = None
+            cur = ty
+            for e in place[1:]:
+                if e.startswith("@"):
+                    variant = e[1:]
+                elif e.startswith("."):
+                    a = prog.adts.get(cur)
+                    if a is None:
+                        return None
+                    vs = [v for v in a["variants"] if variant is None or v["n"] == variant]
+                    fs = [f for f in (vs[0]["fields"] if vs else []) if f["n"] == e[1:].split(":")[0]]
+                    if not fs:
+                        return None
+                    cur = fs[0]["ty"].split("<")[0]
+                    variant = None
+            return cur
+
+        def walk(blk, path, depth):
+            if depth > 4:
+                return
+            t = enc.term(blk)
+            if t["t"] == "switch":
+                pl = op_place(t["on"])
+                src = None
+                if pl and len(pl) == 1:
+                    for (bb, jj, rv) in enc.defs_of(pl[0]):
+                        if jj != "term" and rv[0] == "disc" and bb == blk:
+                            src = rv[1]
+                if src is not None:
+                    adt = adt_at(enc, src)
+                    names = variant_names(prog, adt) if adt else None
+                    if names:
+                        for v, tgt in t["cases"]:
+                            walk(tgt, path + [names.get(int(v), "?")], depth + 1)
+                        return
+            if t["t"] == "call" and re.search(r"VarInt::from_u32$|VarInt as core::convert::From<u(8|16|32)>>::from$", callee(t)) and t["args"]:
+                a = t["args"][0]
+                if const_int(a) is not None:
+                    E[tuple(path)] = ("exact", const_int(a))
+                else:
+                    base = None
+                    q = op_place(a)
+                    if q is not None:
+                        for og in enc.trace_local(q[0]):
+                            if og[0] == "rv" and og[1][0] == "bin" and og[1][1] == "BitOr":
+                                base = const_int(og[1][2]) if const_int(og[1][2]) is not None else const_int(og[1][3])
+                                if base is None:
+                                    # 0x08 | offset | len | fin: the constant sits at the bottom of an OR chain
+                                    work_ = [og[1][2], og[1][3]]
+                                    for _ in range(6):
+                                        nxt = []
+                                        for o_ in work_:
+                                            if const_int(o_) is not None:
+                                                base = const_int(o_)
+                                            elif op_place(o_) is not None:
+                                                for og2 in enc.trace_local(op_place(o_)[0]):
+                                                    if og2[0] == "rv" and og2[1][0] == "bin" and og2[1][1] == "BitOr":
+                                                        nxt += [og2[1][2], og2[1][3]]
+                                        work_ = nxt
+                                        if base is not None or not work_:
+                                            break
+                    E[tuple(path)] = ("base", base)
+                return
+            for s_ in enc.succ(blk):
+                if enc.term(s_)["t"] != "unreachable" and s_ != blk:
+                    walk(s_, path, depth + 1)
+        walk(0, [], 0)
+        D = {}
+        ranges = {}
+        for sbk in dec.live_blocks():
+            t = dec.term(sbk)
+            if t["t"] == "switch" and len(t["cases"]) > 10:
+                for v, tgt in t["cases"]:
+                    aggs = [(rv[1]["adt"], rv[1]["variant"], rv[2]) for s_ in dec.stmts(tgt) if s_[0] == "=" for rv in [s_[2]] if rv[0] == "agg" and rv[1]["k"] == "adt"]
+                    ft = [a for a in aggs if a[0] == "qbase::frame::FrameType"]
+                    sub = [a for a in aggs if a[0] != "qbase::frame::FrameType"]
+                    if ft:
+                        key = (ft[0][1],) + ((sub[0][1],) if sub else ())
+                        computed = any(s_[0] == "=" and s_[2][0] == "bin" for s_ in dec.stmts(tgt))
+                        if computed:
+                            ranges.setdefault(ft[0][1], []).append(int(v))
+                        else:
+                            D[int(v)] = key
+        # STREAM: two range comparisons against constants
+        lo = [const_int(rv[2]) for (i, j, p, rv, line) in dec.assigns() if rv[0] == "bin" and rv[1] == "Le" and const_int(rv[2]) is not None]
+        hi = [const_int(rv[3]) for (i, j, p, rv, line) in dec.assigns() if rv[0] == "bin" and rv[1] == "Le" and const_int(rv[3]) is not None]
+        if lo and hi:
+            ranges["Stream"] = list(range(min(lo), max(hi) + 1))
+        ctx.floor("R3", "constant entries of the decoder table", len(D), 24)
+        ctx.floor("R3", "entries of the encoder table", len(E), 28)
+        for code, key in sorted(D.items()):
+            e = E.get(key)
+            ok = False
+            if e is not None and e[0] == "exact":
+                ok = e[1] == code
+            elif e is None and E.get(key[:1]) is not None and E[key[:1]][0] == "base" and len(key) == 2:
+                base = E[key[:1]][1]
+                sub_adt = None
+                # index of the sub-variant in its enum = the low bit(s) OR-ed onto the base
+                for n, a in prog.adts.items():
+                    if a["kind"] == "enum" and any(v["n"] == key[1] for v in a["variants"]) and n in ("qbase::net::Family",):
+                        sub_adt = n
+                idx = None
+                if sub_adt:
+                    idx = [k for k, nm in (variant_names(prog, sub_adt) or {}).items() if nm == key[1]]
+                ok = base is not None and idx and (base | idx[0]) == code
+            ctx.ob("R3", "FrameType::%s <-> %#x" % ("(".join(key) + (")" if len(key) > 1 else ""), code), bool(ok), dec.where(),
+                   "decoder maps %#x to %s; encoder maps it to %s — a mismatch makes the peer (or this endpoint) read a different "
+                   "frame than was written" % (code, key, e if e is not None else E.get(key[:1])))
+        for fam, codes in sorted(ranges.items()):
+            e = E.get((fam,))
+            ok = e is not None and e[0] == "base" and e[1] == min(codes)
+            ctx.ob("R3", "FrameType::%s family starts at %#x" % (fam, min(codes)), ok, dec.where(),
+                   "decoder accepts %s for %s; encoder ORs the flag bits onto %s" % ([hex(c) for c in codes], fam, e))
+        extra = [k for k, v in E.items() if v[0] == "exact" and D.get(v[1]) != k]
+        ctx.ob("R3", "every constant the encoder writes is decoded back to the same kind", not extra, enc.where(), "encoder-only entries: %s" % (extra or "none"))
     ctx.assume("put_varint writes exactly VarInt::encoding_size() bytes; put_connection_id writes 1 + len (value-level)")
 
 
